@@ -1,7 +1,7 @@
 CONSTANTS LeafSet = "small"
-          RebuildWide = TRUE
+          RebuildWide = FALSE
           Deep = TRUE
           Wide3 = FALSE
           TableWide = FALSE
-INIT InitGenSingle
-NEXT GenSingle
+INIT Init
+NEXT NextGen
